@@ -51,6 +51,56 @@ def _forwards_flag(node, flag):
     return False
 
 
+def _check_consumed(rep, cls, fn, mname):
+    flag = K.with_key_param(fn)
+    if flag is None:
+        rep.ob('W', K.key(cls, mname, 'with_key-parameter'), False, fn,
+               '%s does not accept with_key: items() on a pipeline containing this stage fails with '
+               'a TypeError instead of ItemsNotDefined' % mname)
+        return []
+    g = CFG(fn)
+
+    def consumes(node):
+        if node.ast is None or node.kind == 'join':
+            return False
+        if node.kind in ('test', 'while'):
+            return _mentions(node.ast.test, flag)
+        if node.kind in ('for', 'with', 'handler'):
+            head = node.ast.iter if node.kind == 'for' else node.ast
+            return _forwards_flag(head, flag) if node.kind == 'for' else False
+        if isinstance(node.ast, (ast.If, ast.While, ast.For, ast.Try, ast.With) + A.FUNC_TYPES):
+            return False
+        return _forwards_flag(node.ast, flag) or (
+            isinstance(node.ast, (ast.Assign, ast.Expr, ast.Return, ast.AugAssign))
+            and any(isinstance(x, ast.IfExp) and _mentions(x.test, flag) for x in ast.walk(node.ast)))
+
+    def is_emit(node):
+        if node.ast is None or node.kind in ('join', 'test', 'while', 'for', 'handler', 'with'):
+            return False
+        if isinstance(node.ast, A.FUNC_TYPES):
+            return False
+        if isinstance(node.ast, ast.Return) and node.ast.value is not None:
+            return not consumes(node)
+        return A.contains_yield(node.ast) and not consumes(node)
+
+    path = g.path_avoiding(g.entry.id, is_emit, consumes, edge_ok=normal)
+    ok = path is None
+    rep.ob('W', K.key(cls, mname, 'with_key-consumed-on-every-path'), ok,
+           path[-1].ast if path else fn,
+           '' if ok else 'a path reaches `%s` without ever testing or forwarding with_key: items() yields '
+           'bare examples on it' % A.short(path[-1].ast, 60),
+           path=[repr(p) for p in path if p.ast is not None] if path else None)
+    # helpers of the stage that are handed the flag must honour it as well
+    out = []
+    for c in A.walk_local(fn):
+        if isinstance(c, ast.Call) and A.is_self_attr(c.func) and any(kw.arg == 'with_key' and A.is_name(kw.value, flag)
+                                                                       for kw in c.keywords):
+            m2 = cls.resolve(c.func.attr)
+            if m2 is not None and m2.is_function:
+                out.append(m2)
+    return out
+
+
 def rule_w(ctx):
     rep = ctx.report
     n_iter = 0
@@ -58,46 +108,16 @@ def rule_w(ctx):
         mem = cls.own('__iter__')
         if mem is None or not mem.is_function:
             continue
-        fn = mem.node
         n_iter += 1
-        flag = K.with_key_param(fn)
-        if flag is None:
-            rep.ob('W', K.key(cls, '__iter__', 'with_key-parameter'), False, fn,
-                   '__iter__ does not accept with_key: items() on a pipeline containing this stage fails with '
-                   'a TypeError instead of ItemsNotDefined')
-            continue
-        g = CFG(fn)
-
-        def consumes(node):
-            if node.ast is None or node.kind == 'join':
-                return False
-            if node.kind in ('test', 'while'):
-                return _mentions(node.ast.test, flag)
-            if node.kind in ('for', 'with', 'handler'):
-                head = node.ast.iter if node.kind == 'for' else node.ast
-                return _forwards_flag(head, flag) if node.kind == 'for' else False
-            if isinstance(node.ast, (ast.If, ast.While, ast.For, ast.Try, ast.With) + A.FUNC_TYPES):
-                return False
-            return _forwards_flag(node.ast, flag) or (
-                isinstance(node.ast, (ast.Assign, ast.Expr, ast.Return, ast.AugAssign))
-                and any(isinstance(x, ast.IfExp) and _mentions(x.test, flag) for x in ast.walk(node.ast)))
-
-        def is_emit(node):
-            if node.ast is None or node.kind in ('join', 'test', 'while', 'for', 'handler', 'with'):
-                return False
-            if isinstance(node.ast, A.FUNC_TYPES):
-                return False
-            if isinstance(node.ast, ast.Return) and node.ast.value is not None:
-                return not consumes(node)
-            return A.contains_yield(node.ast) and not consumes(node)
-
-        path = g.path_avoiding(g.entry.id, is_emit, consumes, edge_ok=normal)
-        ok = path is None
-        rep.ob('W', K.key(cls, '__iter__', 'with_key-consumed-on-every-path'), ok,
-               path[-1].ast if path else fn,
-               '' if ok else 'a path reaches `%s` without ever testing or forwarding with_key: items() yields '
-               'bare examples on it' % A.short(path[-1].ast, 60),
-               path=[repr(p) for p in path if p.ast is not None] if path else None)
+        todo = [(mem.node, '__iter__')]
+        seen = set()
+        while todo:
+            fn, mname = todo.pop()
+            if id(fn) in seen:
+                continue
+            seen.add(id(fn))
+            for m2 in _check_consumed(rep, cls, fn, mname):
+                todo.append((m2.node, m2.name))
     rep.floor('__iter__ methods with a CFG', n_iter, 20)
 
 
